@@ -420,20 +420,24 @@ func (x *Exec) runFunc(fd *ast.FuncDecl, c *Contract, sc splitCase, first bool) 
 			exits = append(exits, r)
 		}
 	}
+	// every text-bound annotation must match the function's source (whether or
+	// not a feasible path reached it in this run: a failed obligation cuts the
+	// paths behind it, and must still be reported)
+	hdrs, stmts := x.sourceAnchors(fd)
 	for _, h := range c.LoopTextOrder {
-		if x.loopTextHits[x.qual+"|"+h] == 0 {
+		if x.loopTextHits[x.qual+"|"+h] == 0 && !hasPrefixIn(hdrs, h) {
 			x.fail("loop header %q matches no loop of %s", h, x.qual)
 			return
 		}
 	}
 	for _, aa := range c.AssertBefore {
-		if x.anchorHits["assert:"+aa.Anchor] == 0 {
+		if x.anchorHits["assert:"+aa.Anchor] == 0 && !hasPrefixIn(stmts, aa.Anchor) {
 			x.fail("assertbefore anchor %q matches no statement of %s", aa.Anchor, x.qual)
 			return
 		}
 	}
 	for _, ga := range c.GhostAfter {
-		if x.anchorHits[ga.Anchor] == 0 {
+		if x.anchorHits[ga.Anchor] == 0 && !hasPrefixIn(stmts, ga.Anchor) {
 			x.fail("ghostafter anchor %q matches no statement of %s", ga.Anchor, x.qual)
 			return
 		}
@@ -1124,4 +1128,33 @@ func (e *Engine) isExternalName(q string) bool {
 		return true
 	}
 	return e.pkg.Types.Scope().Lookup(first) == nil
+}
+
+func hasPrefixIn(texts []string, p string) bool {
+	for _, t := range texts {
+		if strings.HasPrefix(t, p) {
+			return true
+		}
+	}
+	return false
+}
+
+// sourceAnchors lists the loop headers and the statement texts of a function
+// body (the strings text-bound annotations are matched against).
+func (x *Exec) sourceAnchors(fd *ast.FuncDecl) (hdrs, stmts []string) {
+	if fd == nil || fd.Body == nil {
+		return
+	}
+	ast.Inspect(fd.Body, func(n ast.Node) bool {
+		switch s := n.(type) {
+		case *ast.ForStmt:
+			hdrs = append(hdrs, x.loopHeader(s))
+		case *ast.RangeStmt:
+			hdrs = append(hdrs, x.loopHeader(s))
+		case *ast.AssignStmt, *ast.ExprStmt, *ast.IncDecStmt, *ast.DeclStmt, *ast.ReturnStmt, *ast.BranchStmt:
+			stmts = append(stmts, x.eng.srcText(s.(ast.Node)))
+		}
+		return true
+	})
+	return
 }
